@@ -82,7 +82,7 @@ def e1_configs(tier):
     cfgs.append(
         stages.WalkTwice(
             kind="filtered", depth=3, W=2, accepted=[(1, 0, 0), (2, 0, 0), (3, 0, 0), (2, 1, 1), (3, 2, 2)],
-            first_depth=2, first_accepted=[(1, 0, 0), (2, 0, 0)],
+            first_depth=2, first_accepted=[(1, 0, 0), (2, 0, 0)], **({"max_deviations": 4} if tier == "quick" else {})
         )
     )
     # the same kind of history with a parent that has FOUR live children in the second walk (only then is
@@ -116,7 +116,7 @@ def e1_configs(tier):
         cfgs.append(W(kind="generic", depth=2, W=3, max_deviations=2))
     # the calling process already owns an unrelated idle child process (dead-worker detection that counts
     # the process's children must not misfire)
-    cfgs.append(W(kind="filtered", depth=2, W=2, accepted=three, foreign_child=True))
+    cfgs.append(W(kind="filtered", depth=2, W=2, accepted=three, foreign_child=True, **({"max_deviations": 4} if tier == "quick" else {})))
     if tier == "thorough":
         cfgs += [
             W(kind="generic", depth=2, W=2),
